@@ -1,4 +1,5 @@
 import FormulaicVerif.Proofs.C11Lists
+import FormulaicVerif.Proofs.C11Cache
 import Mathlib.LinearAlgebra.Matrix.NonsingularInverse
 import Mathlib.Algebra.BigOperators.Fin
 import Mathlib.Tactic.FieldSimp
@@ -381,5 +382,57 @@ example : IsUnit (augM (.poly (fun i => (i : ℚ) * (i : ℚ))) 6).det :=
 example : aug (.poly (fun _ => 0)) 2 0 0 = aug (.poly (fun _ => 0)) 2 1 0 ∧
     aug (.poly (fun _ => 0)) 2 0 1 = aug (.poly (fun _ => 0)) 2 1 1 := by
   constructor <;> simp [aug, Model.Contrasts.coding, polyP]
+
+/-! ### one materialization that needs the same factor several times -/
+section cache
+open FormulaicVerif.Model.ContrastsCache FormulaicVerif.Spec.ContrastsCache
+
+/-- C11.8  The materializer's encoded-factor cache and the per-part encoder state are invisible: for EVERY
+history of uses of a `C(x, contr.…)` factor inside one materialization (any sequence of full-rank /
+reduced-rank requests, spread over any number of parts), the columns handed to each use are exactly what
+a stand-alone `encode_contrasts(data, contrasts, levels=…, reduced_rank=r)` returns, and the
+materialization fails exactly when the first failing stand-alone call does. (`evalDrop = none`: the value
+`C(...)` returns carries no `drop_field`, so entries are keyed by `(expr, reduced_rank)`.) -/
+theorem cache_transparent (f : Factor) (hd : f.evalDrop = none) (qs : List Request) :
+    materialize f qs = each f qs :=
+  run_eq_each f hd qs _ (inv_init f)
+
+/-- C11.9  Hence every use, whatever was materialised before it in the same call, is
+`indicator(data) @ coding`, with the reduced coding (`n × (n-1)`) where reduced rank was asked for and
+the full coding (the identity, `full_is_identity`) elsewhere, over the explicit level list or the
+sorted distinct values. -/
+theorem materialized_is_product (f : Factor) (hd : f.evalDrop = none) (qs : List Request) (outs : List Encoded)
+    (h : materialize f qs = .ok outs) :
+    outs.length = qs.length ∧
+      ∀ (k : ℕ) (hk : k < qs.length) (ho : k < outs.length) (m : List (List ℚ)),
+        categories f ≠ [] →
+        getCodingMatrix f.contrast (categories f) qs[k].reduced (f.output == "sparse") = .ok m →
+        outs[k].values = matMul (indicator (categories f) f.data) m
+          (if qs[k].reduced then (categories f).length - 1 else (categories f).length) := by
+  rw [cache_transparent f hd qs] at h
+  obtain ⟨hl, hk⟩ := each_ok f qs outs h
+  refine ⟨hl, ?_⟩
+  intro k hk1 hk2 m hne hm
+  have henc := direct_ok (hk k hk1 hk2)
+  exact (apply_is_product f.data f.contrast f.levels qs[k].reduced f.output outs[k] (categories f) m henc hne hm).1
+
+/-- the hypothesis holds for what `C(...)` returns, and histories that need both ranks exist -/
+example : (⟨[some (.str "a"), some (.str "b"), none, some (.str "c")], .sum, none, "pandas", none⟩ : Factor).evalDrop = none := rfl
+example :
+    (materialize ⟨[some (.str "a"), some (.str "b"), none, some (.str "c")], .sum, none, "pandas", none⟩
+      [⟨false, true⟩, ⟨true, false⟩, ⟨true, true⟩]).toOption.map (fun l => l.map (·.values))
+    = some [[[1, 0, 0], [0, 1, 0], [0, 0, 0], [0, 0, 1]],
+            [[1, 0], [0, 1], [0, 0], [-1, -1]],
+            [[1, 0], [0, 1], [0, 0], [-1, -1]]] := by decide +kernel
+/-- the hypothesis is not decoration: were entries keyed by the bare expression (a truthy `drop_field` on the
+evaluated factor), a reduced-rank use after a full-rank use would get the dummies minus one column instead of
+the reduced coding -/
+example :
+    (materialize ⟨[some (.str "a"), some (.str "b"), none, some (.str "c")], .sum, none, "pandas", some (.str "a")⟩
+      [⟨false, true⟩, ⟨true, false⟩]).toOption.map (fun l => l.map (·.values))
+    = some [[[1, 0, 0], [0, 1, 0], [0, 0, 0], [0, 0, 1]],
+            [[0, 0], [1, 0], [0, 0], [0, 1]]] := by decide +kernel
+
+end cache
 
 end FormulaicVerif.Props.C11
